@@ -68,6 +68,12 @@ def o172(ctx):
                "phase_shift": sym("star:rlnPhaseShift") if phase else const(0.0),
                "defocus_mean": mk("div", mk("add", mk("mul", U, const(1e-4)), mk("mul", V, const(1e-4))), const(2.0))}
         expect_cols(ctx, it, q, r.ret, exp, what=f"gctf_read ({'with' if phase else 'without'} phase shift): Angstrom -> micrometre for U and V only, mean=(U+V)/2")
+        rs_ = [e for e in it.events if e.kind == "call" and e.name == "cryocat.starfileio.Starfile.read"]
+        src_ = rs_[0].extra.get("ret") if rs_ else None
+        src_ = src_.items[0] if isinstance(src_, Seq) and src_.items else src_
+        src_ = src_.items[0] if isinstance(src_, Seq) and src_.items else src_
+        if isinstance(src_, Frame):
+            same_rows_same_order(ctx, q, r.ret, src_, "gctf_read returns the entries in the order of the file's rows (entry i goes with tilt i)", fn, m)
         res["gctf"] = list(r.ret.order or [])
     q = IO + "ctffind4_read"
     m, fn = ctx.prog.func(q)
@@ -81,6 +87,12 @@ def o172(ctx):
            "defocus_mean": mk("div", mk("add", mk("mul", U, const(1e-4)), mk("mul", V, const(1e-4))), const(2.0))}
     expect_cols(ctx, it, q, r.ret, exp, what="ctffind4_read: columns 2-5 of the file; Angstrom -> micrometre for defocus 1 and 2 only, mean=(U+V)/2")
     rc = [e for e in it.events if e.kind == "call" and e.name == "pandas.read_csv"]
+    # entry i of the result is line i of the file (every consumer pairs it with tilt i by position)
+    src_ = rc[0].extra.get("ret") if rc else None
+    if isinstance(src_, Frame):
+        same_rows_same_order(ctx, q, r.ret, src_, "ctffind4_read returns the entries in the order of the file's lines (entry i goes with tilt i)", fn, m)
+    else:
+        raise Unsupported("table read by ctffind4_read not recognised", fn)
     ctx.count(1)
     sk = rc[0].kwargs.get("skiprows") if rc else None
     if not rc or sk is None or to_term(sk) != sym("nskip"):
@@ -497,6 +509,7 @@ def o177(ctx):
 
 def _obligations():
     return [
+        Obligation("O17.10", "dimensions_load: an N x 4 table comes back as given, one triplet is repeated per listed tomogram (shared with C09)", _c09.o99, floor=10),
         Obligation("O17.8", "z_shift_load(number) hands the value back unchanged, Python number or numpy scalar", o178, floor=2),
         Obligation("O17.9", "wedge lists on disk: the STAR writer's header and row text read back to the table (shared with C02)",
                    lambda ctx: (_star.o23(ctx), _star.o25(ctx)), floor=200),
@@ -511,4 +524,4 @@ def _obligations():
 
 
 def obligations():
-    return _obligations() + [labels_obligation("C17"), selectors_obligation("C17"), effects_obligation("C17"), plumbing_obligation("C17")]
+    return _obligations() + [labels_obligation("C17"), selectors_obligation("C17"), effects_obligation("C17"), plumbing_obligation("C17"), overrides_obligation("C17"), options_obligation("C17")]
